@@ -84,7 +84,8 @@ _SCHEMES = ['http', 'https', 'ftp', 'HTTP', 'hTTps']
 _HOSTS = ['example.com', 'EXAMPLE.Com', 'b\xfccher.example', 'xn--bcher-kva.example', '192.168.0.1', '0xC0.0250.0.1', '3232235521', '0xC0A80001',
           '[::1]', '[0:0:0:0:0:0:0:1]', '[2001:DB8::A]', 'example.com.', '0x7F\u30020\u30020\u30021', '127\uff0e0\uff0e0\uff0e1', 'ex\uff61ample.com',
           '\uff11\uff12\uff17.0.0.1', 'E\u0301xample.com', '010.1.1.1', '1.2.3', 'localhost', 'a-b.example', 'EX%41MPLE.com', 'example\u3002com',
-          '0300.0250.0.01', '\uff10\uff587F.0.0.1', '\uff10177.0.0.1', '\uff12130706433', '0x7f.0.0\uff0e1', '[FE80::1%ETH0]', '[fe80::1%25eth0]']
+          '0300.0250.0.01', '\uff10\uff587F.0.0.1', '\uff10177.0.0.1', '\uff12130706433', '0x7f.0.0\uff0e1', '[FE80::1%ETH0]', '[fe80::1%25eth0]',
+          'WWW.b\xfccher.example', 'WWW\u3002EXAMPLE\u3002COM', '0XC0\u30020X00\u30020X02\u30020XEB', 'B\xdcCHER.Example']
 _USERINFO = ['', 'user@', 'User:Pass@', 'u%40x:p%3Aq@', '%2541@', 'u:%25%34%31@', ':p@', 'a b@', 'u%00@', 'user%0A@', 'u:pw%0A@', 'u%0D:p@', 'u%09@', '%0Au@', 'u:p%20@']
 _SEGS = ['a', '.', '..', '', '%2e', '%2E', '%2F', '%7e', '~', ' ', '\xe9', '%C3%A9', 'a%2fb', '%', '%zz', 'A', '%41', 'a;b', '+']
 _QUERIES = ['', '?', '?a=b', '?a b', '?a+b', '?%2f%2F', '?\xe9', '?a=1#f', '#frag', '?a=1&a=2', '?%', '?q=a%20b']
